@@ -116,3 +116,59 @@ MUTANTS += [
         (EXPR, "                    need_ref[ref] = expr.props.get(\"force_ref\", False)\n",
                "                    need_ref[ref] = expr.props.get(\"force_ref\", False) or (id(expr) % 4096 == 0 and expr.kind == 'multiply')\n")]),
 ]
+
+PY = "functional_algorithms/targets/python.py"
+NP = "functional_algorithms/targets/numpy.py"
+CPP = "functional_algorithms/targets/cpp.py"
+XLA = "functional_algorithms/targets/xla_client.py"
+HLO = "functional_algorithms/targets/stablehlo.py"
+BASE = "functional_algorithms/targets/base.py"
+T_TGT = ["functional_algorithms/tests/test_functional_algorithms.py", "functional_algorithms/tests/test_expr.py"]
+
+MUTANTS += [
+    dict(prop="C05", name="revert-fix-cpp-argument-by-symbol-name", tests=T_TGT, edits=[(CPP, 'return f"{typ} {arg.ref}"', 'return f"{typ} {arg}"')]),
+    dict(prop="C05", name="revert-fix-negzero-identifier", tests=T_TGT, edits=[
+        (EXPR, "        if value == 0 and math.copysign(1, value) < 0:\n", "        if False:\n"),
+        (EXPR, "        if value == 0 and numpy.signbit(value):\n", "        if False:\n")]),
+    dict(prop="C05", name="python-subtract-operands-swapped", tests=T_TGT, edits=[(PY, 'subtract="({0}) - ({1})"', 'subtract="({1}) - ({0})"')]),
+    dict(prop="C05", name="numpy-constants-always-float64", tests=T_TGT, edits=[(NP,
+        '        typ = self.get_type(like)\n        s = str(value)\n        s = {"inf"', '        typ = "numpy.float64"\n        s = str(value)\n        s = {"inf"')]),
+    dict(prop="C05", name="printer-defined-refs-class-level", tests=T_TGT, edits=[(BASE,
+        "        self.defined_refs = set()\n        self.assignments = []\n", "        self.defined_refs = _DEFINED\n        self.assignments = []\n"),
+        (BASE, "class PrinterBase:\n", "_DEFINED = set()\n\n\nclass PrinterBase:\n")]),
+    dict(prop="C05", name="register-reference-suffix-counter-stuck", tests=T_TGT, edits=[(CTX,
+        "                elif other is not None:\n                    counter += 1\n                    ref_name_ = f\"_{ref_name}_{counter}_\"\n",
+        "                elif other is not None:\n                    counter += 1\n                    break\n")]),
+    dict(prop="C05", name="cpp-log1p-spelled-log", tests=T_TGT, edits=[(CPP, 'log1p="std::log1p({0})"', 'log1p="std::log({0})"')]),
+    dict(prop="C05", name="cpp-select-branches-swapped", tests=T_TGT, edits=[(CPP, 'select="(({0}) ? ({1}) : ({2}))"', 'select="(({0}) ? ({2}) : ({1}))"')]),
+    dict(prop="C05", name="numpy-ge-spelled-greater", tests=T_TGT, edits=[(NP, 'ge="numpy.greater_equal({0}, {1})"', 'ge="numpy.greater({0}, {1})"')]),
+    dict(prop="C05", name="origin-prefix-dropped-on-conflict", tests=T_TGT, edits=[(CTX,
+        '            ref_name = expr.props["origin"] + ref_name\n', '            ref_name = ref_name\n')]),
+    dict(prop="C05", name="python-largest-constant-is-min", tests=T_TGT, edits=[(PY, 'largest="sys.float_info.max"', 'largest="sys.float_info.min"')]),
+
+    dict(prop="C06", name="revert-fix-xla-constant-like-by-ref", tests=T_TGT, edits=[(XLA,
+        'return f"ScalarLike({self.tostring(like)}, {value})"', 'return f"ScalarLike({like.ref}, {value})"')]),
+    dict(prop="C06", name="revert-fix-xla-argument-by-symbol-name", tests=T_TGT, edits=[(XLA, 'return f"{typ} {arg.ref}"', 'return f"{typ} {arg}"')]),
+    dict(prop="C06", name="revert-fix-negzero-identifier", tests=T_TGT, edits=[
+        (EXPR, "        if value == 0 and math.copysign(1, value) < 0:\n", "        if False:\n"),
+        (EXPR, "        if value == 0 and numpy.signbit(value):\n", "        if False:\n")]),
+    dict(prop="C06", name="xla-sub-operands-swapped", tests=T_TGT, edits=[(XLA, 'subtract="Sub({0}, {1})"', 'subtract="Sub({1}, {0})"')]),
+    dict(prop="C06", name="xla-le-spelled-lt", tests=T_TGT, edits=[(XLA, 'le="Le({0}, {1})"', 'le="Lt({0}, {1})"')]),
+    dict(prop="C06", name="hlo-divide-operands-swapped", tests=T_TGT, edits=[(HLO,
+        "            for operand in expr.operands:\n                op_lines = self.tostring(operand, tab=tab + \"  \").splitlines()\n",
+        "            for operand in (expr.operands[::-1] if expr.kind == 'divide' else expr.operands):\n                op_lines = self.tostring(operand, tab=tab + \"  \").splitlines()\n")]),
+    dict(prop="C06", name="hlo-comparison-direction-ge-as-gt", tests=T_TGT, edits=[(HLO,
+        'StableHLO_ComparisonDirectionValue<"{expr.kind.upper()}">', 'StableHLO_ComparisonDirectionValue<"{expr.kind.upper().replace(\'GE\', \'GT\')}">')]),
+    dict(prop="C06", name="hlo-binding-repeated-at-use", tests=T_TGT, edits=[(HLO,
+        '            assert self.need_ref.get(expr.ref), expr.ref\n            return f"{tab}${expr.ref}"\n',
+        '            assert self.need_ref.get(expr.ref), expr.ref\n            if expr.kind == "multiply":\n                self.defined_refs.discard(expr.ref)\n            else:\n                return f"{tab}${expr.ref}"\n')]),
+    dict(prop="C06", name="hlo-constant-like-not-checked-for-definition", tests=T_TGT, edits=[(HLO,
+        "            if like.ref in self.defined_refs:\n", "            if True:\n")]),
+    dict(prop="C06", name="hlo-printer-defined-refs-class-level", tests=T_TGT, edits=[(HLO,
+        "        self.need_ref = need_ref\n        self.defined_refs = set()\n", "        self.need_ref = need_ref\n        self.defined_refs = _DEFINED\n"),
+        (HLO, "class Printer:\n", "_DEFINED = set()\n\n\nclass Printer:\n")]),
+    dict(prop="C06", name="hlo-named-constant-largest-as-smallest", tests=T_TGT, edits=[(HLO,
+        'largest="StableHLO_ConstantLikeMaxFiniteValue"', 'largest="StableHLO_ConstantLikeSmallestNormalizedValue"')]),
+    dict(prop="C06", name="xla-constant-value-low-precision", tests=T_TGT, edits=[(CPP,
+        "        s = str(value)\n        if s == \"inf\":", "        s = ('%.12g' % value) if isinstance(value, float) else str(value)\n        if s == \"inf\":")]),
+]
